@@ -164,7 +164,11 @@ func checkC13A(c C13ACase) (o Outcome) {
 		o.Violation = V("crash", "knut %v: %s\n%s", args, r.Brief(), show()).With("importer", c.Importer)
 		return o
 	}
-	if r.Exit != 0 || r.Stderr != "" {
+	if r.Exit == 0 && r.Stderr != "" {
+		// the statement is about the emitted journal (stdout); a warning on stderr is recorded, not judged
+		o.Labels = append(o.Labels, "stderr-on-success")
+	}
+	if r.Exit != 0 {
 		o.Violation = V("import-failed", "knut %v on a well-formed statement: exit %d, stderr:\n%s\n%s", args, r.Exit, clip(r.Stderr, 800), show()).With("importer", c.Importer)
 		return o
 	}
